@@ -451,8 +451,8 @@ def rich_case(draw, tier="quick"):
     c["runner"] = draw(st.sampled_from(["sync", "async", "sched"]))
     c["sched"] = draw(st.lists(st.integers(0, 7), max_size=40))
     c["runs"] = draw(st.sampled_from([1, 1, 2]))  # a second run on the same runner hits the cache
-    c["select"] = draw(st.lists(st.integers(0, 9), min_size=1, max_size=2)) if prob(draw, 0.3) else None
-    c["on_missing"] = draw(st.sampled_from(["ignore", "warn", "error"]))
+    c["select"] = draw(st.lists(st.integers(0, 9), min_size=1, max_size=2)) if prob(draw, 0.4) else None
+    c["on_missing"] = draw(st.sampled_from(["ignore", "warn", "error", "error"]))
     c["max_iter"] = draw(st.sampled_from([4, 10, 25]))
     c["omit_required"] = prob(draw, 0.08)
     c["mc"] = draw(st.sampled_from([None, None, 1, 2, 3]))  # max_concurrency (async runners only)
